@@ -30,6 +30,14 @@ def matcher(name):
     return deco
 
 
+@matcher("update_fault_after_insert")
+def _update_fault_after_insert(v, f):
+    """The behaviour contains a storage fault placed at the update of the datatype document of a handler run
+    that had already inserted operation documents: everything that goes wrong afterwards on that datatype
+    (operations beyond the recorded end, refused retries, clients that cannot settle) is this finding."""
+    return any(a.get("name") == "serveFault" and a.get("m") == "update Datatypes" and a.get("ins") for a in (v.get("steps") or []))
+
+
 def match(known, prop, v):
     for f in known:
         if f.get("status") != "open" or f.get("property") != prop:
